@@ -207,7 +207,7 @@ def run(ctx):
     ctx.assumptions = ['pitch arithmetic from kv/pitchref.py (C09)', 'the call may raise only if some note of the document has an exact result beyond two accidentals']
     # argument validation on the menu's edges
     d, _ = kp.loads('**kern\n*clefG2\n4c\n*-\n')
-    for bad in (('P8', 'up'), ('M2', 'sideways'), ('', 'up'), ('m2', 'UP')):
+    for bad in (('Q3', 'up'), ('M2', 'sideways'), ('', 'up'), ('m2', 'UPWARDS')):
         ctx.count('transitions')
         try:
             d.to_transposed(*bad)
